@@ -3,7 +3,7 @@ import os, json, re, subprocess
 import vlib
 
 PROP_FILES = ['Properties/C11']
-EXTRA_OBLIGATION_FILES = ['Proofs/AEAD', 'Proofs/Crypto', 'Proofs/Codec', 'Proofs/CodecAuth']
+EXTRA_OBLIGATION_FILES = ['Proofs/AEAD', 'Proofs/Crypto', 'Proofs/Codec', 'Proofs/CodecAuth', 'Proofs/AtomMux']
 TRUSTED = [
     'Coq 8.16.1 kernel incl. vm_compute (no native_compute); C11_no_panic, C11_refuted, C11_witness_*, C11_partial, C11_accepted_is_sealed, C11_partial_not_vacuous, C11_drop_no_effect: Closed under the global context',
     'hand-written model coq/Model/Codec.v of deobfuscate (Go slices as checked zslice with explicit Panic; the in-place Open is modelled as plaintext ++ remaining tag bytes) and of the first step of recvDataFromRemote (abstract session state + handler)',
@@ -447,3 +447,4 @@ if 'search' not in globals():
     def search(ctx, verdict, problems):
         return winlib.search(ctx, verdict, problems)
 MANIFEST = dict(MANIFEST, level_note=MANIFEST.get('level_note', '') + ' Frames whose unauthenticated header bytes 12-13 were altered (accepted: known finding F3) are also driven through live sessions, in order on a stream of their own, for every bit and method: whatever they then mean, the process must not crash and the other stream goes on.')
+TRUSTED = list(TRUSTED) + ['receive path of a session as GENERATED obligations (Proofs/AtomMux.v about coq/Gen/Atomicity.v, tools/lockscan): the pooled receive frame is handed back exactly once and never touched afterwards, whatever the decode result (a message that is rejected must leave no trace for later valid frames)']
